@@ -254,6 +254,25 @@ impl Prop for P {
                 docs.push(vec![e("blockquote", inner)]);
             }
         }
+        // every depth-1 document directly after text *without* white space, in a div, a list
+        // item and a quote (the marker is then the trailing element of a pending word), with
+        // texts whose last word is shorter than / exactly as long as / longer than typical widths
+        for d in block_docs(1, G { tables: true, pre: true, valid_only: true }) {
+            for text in ["qy", "ab cdefgh", "abcdefgh ij"] {
+                let mut inner = vec![t(text)];
+                inner.extend(d.clone());
+                if valid(&[e("div", inner.clone())]) {
+                    docs.push(vec![e("div", inner.clone())]);
+                    docs.push(vec![e("ul", vec![e("li", inner.clone())])]);
+                }
+            }
+        }
+        for text in ["ab cdefgh", "qy", "abcdefgh"] {
+            docs.push(vec![e("p", vec![t(text), e("span", vec![e("br", vec![]), t("yz")])])]);
+            docs.push(vec![e("ul", vec![e("li", vec![t(text), e("ul", vec![e("li", vec![t("x")])])])])]);
+            docs.push(vec![e("div", vec![t(text), e("h3", vec![t("T")])])]);
+            docs.push(vec![e("blockquote", vec![t(text), e("ol", vec![e("li", vec![t("x")]), e("li", vec![t("y")])])])]);
+        }
         Box::new(S { docs, maxw: tier.pick(20, 30), pair_widths: tier.pick(vec![1, 3, 6, 12], vec![1, 2, 3, 5, 8, 12, 20]) })
     }
     fn replay(&self, case: &Value, cx: &mut Cx) {
